@@ -107,6 +107,7 @@ func genC10(rng *rand.Rand, c *Case) {
 	c.Cfg["depth"] = rng.Intn(4)
 	c.Cfg["fan"] = 1 + rng.Intn(5)
 	c.Cfg["mode"] = rng.Intn(3) // 0 download, 1 upload, 2 upload then download (round trip)
+	c.Cfg["twin"] = rng.Intn(2)  // download mode: a second client downloads another folder at the same time
 	c.Cfg["choiceseed"] = rng.Intn(1 << 30)
 	c.Cfg["cut"] = []int{0, 0, 0, 1, 2, 3, 4}[rng.Intn(7)] // 1/2 reset/close inside a resumed item, 3/4 close/reset inside a new item
 }
@@ -427,8 +428,13 @@ func runC10(w *World) {
 	nodes := genTreeOpt(rand.New(rand.NewSource(int64(cfg["treeseed"]))), cfg["depth"], cfg["fan"], cfg["mode"] == 0)
 	crng := rand.New(rand.NewSource(int64(cfg["choiceseed"])))
 	mode := cfg["mode"]
+	var twinNodes []treeNode
 	if mode == 0 {
 		writeTree(filepath.Join(w.FileRoot, "Folder"), nodes)
+		if cfg["twin"] == 1 {
+			twinNodes = genTreeOpt(rand.New(rand.NewSource(int64(cfg["treeseed"])+77)), cfg["depth"], cfg["fan"], true)
+			writeTree(filepath.Join(w.FileRoot, "Twin"), twinNodes)
+		}
 	} else {
 		// some files are already complete, some partial on the server
 		must(os.MkdirAll(filepath.Join(w.FileRoot, "Folder"), 0755))
@@ -456,6 +462,9 @@ func runC10(w *World) {
 		}
 		switch mode {
 		case 0:
+			if twinNodes != nil {
+				w.Meet(1, 2)
+			}
 			c.folderDownload(w, "Folder", nodes, crng)
 		case 1, 2:
 			cut := 0
@@ -478,6 +487,18 @@ func runC10(w *World) {
 			}
 		}
 	})
+	if twinNodes != nil {
+		c2 := w.NewClient("xfer2", "10.1.0.2")
+		w.Sim.Go("c1", true, func() {
+			if !c2.Login("guest", "", c2.Name, 1) {
+				w.Violate("c10-login", "second client could not log in")
+				return
+			}
+			w.Meet(1, 2)
+			c2.folderDownload(w, "Twin", twinNodes, rand.New(rand.NewSource(int64(cfg["choiceseed"])+5)))
+			w.Probe("concurrent_folder_downloads")
+		})
+	}
 	w.Sim.Run()
 	if c.FrameErr != nil {
 		w.Violate("c10-malformed-stream", "%v", c.FrameErr)
